@@ -28,6 +28,8 @@ def write(prop, f, results, scratch, repo):
                                         leg=f['leg']['id'], replay_exit=rc, replay_output=lines,
                                         rerun='python3 vc/check.py %s --replay <this file>' % prop)
             found = rc != 0
+            # the replay ran and the real code gave the expected answer on the verifier's own counterexample: the two disagree
+            doc['refuted_on_real_code'] = (rc == 0 and any('VERIF-REPLAY' in l for l in lines))
         except Exception as e:
             doc['replay_search_error'] = repr(e)
         with open(path, 'w') as fh:
